@@ -162,7 +162,7 @@ def fromU64Prefix (a0 a1 : Nat) : Option Mat :=
         let q := a1 / a2
         let a3 := wsub a1 (wmul q a2)
         let k3 := wadd k1 (wmul q k2)
-        some (pSelect (pLoop (a3 + 1)
+        some (pSelect (pLoop (a1 + 1)
           { a1 := a1, a2 := a2, a3 := a3, k0 := k0, k1 := k1, k2 := k2, k3 := k3, even := true }))
 
 /-! ## `from_u128_prefix`, `Matrix::from` -/
